@@ -831,6 +831,24 @@ def gen_c13(tier, seed):
                 nh = 1 if hcode else 0
                 ops = setup_ops(regs, mem, code + [0x70] * 4) + ['k:3e8', 'sx', 'gr', 'rw:%x' % sp, 'rw:%x' % (sp + 4)] + ['sx'] * nh + ['sx', 'gr', 'X:%x' % nh]
                 g.add(ops, 'fault-%s' % ('dst' if is_dst else 'src'))
+    # divide overflow (most negative / -1) and remainder with a faulting destination: flags must not move
+    for name, mn, neg1 in (('DIVW3', 0x80000000, 0xffffffff), ('DIVH3', 0x8000, 0xffff), ('DIVB3', 0x80, 0xff), ('MODW3', 0x80000000, 0xffffffff),
+                           ('DIVW2', 0x80000000, 0xffffffff), ('DIVH2', 0x8000, 0xffff), ('MODH3', 0x8000, 0xffff)):
+        for fl in allflags():
+            for _ in range(1 if tier == 'quick' else 6):
+                three_op = name.endswith('3')
+                do, rx = bad(True)
+                regs = rnd_regs(r, psw_of(fl, ipl=15))
+                regs.update(rx)
+                srcs = [r.choice([immw(neg1), lit(-1)]), immw(mn)] if three_op else [r.choice([immw(neg1), lit(-1)])]
+                if not three_op:
+                    # two-operand form: the destination is also the dividend; a faulting destination faults on the read already
+                    continue
+                sp = STK
+                regs[12] = sp
+                mem = exc_setup(r, []) + [(DATA, [r.randrange(256) for _ in range(0x140)])]
+                ops = setup_ops(regs, mem, ins(OP[name], *(srcs + [do])) + [0x70] * 4) + ['k:3e8', 'sx', 'gr', 'rw:%x' % sp, 'rw:%x' % (sp + 4), 'sx', 'gr', 'X:0']
+                g.add(ops, 'fault-div-overflow')
     return g.result('Every data-processing / move / stack instruction class (B/H/W forms) with each operand in turn pointing at unmapped space '
                     '(holes after every device, above RAM, top of the address space) or, for destinations, ROM, through absolute, register-deferred '
                     'and displacement modes; gate tables and a handler (optionally disturbing the flags) ending in RETG; stepped with Cpu::step '
@@ -909,7 +927,7 @@ def gen_c07(tier, seed):
                 for _ in range(n):
                     fl = r.choice(allflags())
                     cm = r.choice([0, 0, 0, 1, 3])
-                    psw = psw_of(fl, ipl=ipl, extra=(cm << 11) | (cm << 9))
+                    psw = psw_of(fl, ipl=ipl, extra=(cm << 11) | (cm << 9) | r.choice([0, 0, 0x100]))   # R may be left set by an earlier R handler
                     regs = rnd_regs(r, psw)
                     regs[13] = OLDPCB
                     regs[14] = ISTK + 4 * r.randrange(4)
